@@ -22,10 +22,10 @@ collapsed to one ownership region); `fit`-like calls replace fields of the recei
 immutable values (they never store references to caller objects: numpy array aliasing is not
 modelled, see DESIGN §4 C05).
 
-`check` is the decidable abstract interpretation of a summary: per variable / attribute two bits,
-*safe* (an immutable value, or a reference to a cell that this call may mutate: allocated by the
-call itself or privately owned by `self`) and *closed* (safe, and everything reachable from it is
-again closed).  All bits of one kind are kept in one natural number so that `by decide` evaluates
+`check` is the decidable abstract interpretation of a summary: per variable / attribute three bits
+(`Cls`): *mutable without harm* (an immutable value, or a reference to a cell allocated by the call
+itself or privately owned by `self`), *closed* (an immutable value or a reference to a mutable cell
+from which only closed cells are reachable) and *certainly not closed*.  All bits of one kind are kept in one natural number so that `by decide` evaluates
 `check` by kernel-accelerated bit operations (call-by-value through `forceN`).
 -/
 
@@ -46,6 +46,8 @@ structure St where
   h : Heap
   env : Nat → Val
   clk : Nat
+  /-- set when the method has left by an exception -/
+  dead : Bool := false
 
 /-! ## Syntax -/
 
@@ -73,6 +75,8 @@ inductive Atom where
 
 inductive Prog where
   | skip
+  /-- the method leaves by an exception (`raise`): nothing after it runs -/
+  | abort
   | seq (e : Atom) (rest : Prog)
   | ite (t e rest : Prog)
   deriving Repr
@@ -147,10 +151,10 @@ def evalRhs (self : Nat) (ω : Ora) (s : St) : Rhs → Val × Heap
 def execAtom (self : Nat) (inner : Nat → Heap → Heap) (ω : Ora) (s : St) : Atom → St
   | .bind x r =>
     match evalRhs self ω s r with
-    | (v, h') => { h := h', env := fun y => if y = x then v else s.env y, clk := s.clk + 1 }
+    | (v, h') => { s with h := h', env := fun y => if y = x then v else s.env y, clk := s.clk + 1 }
   | .writeAttr a r =>
     match evalRhs self ω s r with
-    | (v, h') => { h := h'.setField self a v, env := s.env, clk := s.clk + 1 }
+    | (v, h') => { s with h := h'.setField self a v, clk := s.clk + 1 }
   | .mutate p stored =>
     match evalPath self s p with
     | .atom _ => s.tick
@@ -180,10 +184,11 @@ def execAtom (self : Nat) (inner : Nat → Heap → Heap) (ω : Ora) (s : St) : 
 
 def run (self : Nat) (inner : Nat → Heap → Heap) (ω : Ora) : Prog → St → St
   | .skip, s => s
+  | .abort, s => { s with dead := true }
   | .seq e rest, s => run self inner ω rest (execAtom self inner ω s e)
   | .ite t e rest, s =>
-    run self inner ω rest
-      (if ω.coin s.clk then run self inner ω t s.tick else run self inner ω e s.tick)
+    let s' := if ω.coin s.clk then run self inner ω t s.tick else run self inner ω e s.tick
+    if s'.dead then s' else run self inner ω rest s'
 
 /-- `get_params(deep=False)` of the object at `self`: the values of its parameter attributes. -/
 def getParams (h : Heap) (self : Nat) (ps : List Nat) : List Val := ps.map (h.cell self)
@@ -196,16 +201,30 @@ def getParams (h : Heap) (self : Nat) (ps : List Nat) : List Val := ps.map (h.ce
   | 0 => k 0
   | m + 1 => k (m + 1)
 
-/-- Bit sets: `ls`/`lc` locals safe/closed, `as`/`ac` attributes safe/closed. -/
+/-- What is known about a value: `m` = it may be mutated in place without the caller noticing (an
+immutable value, or a reference to a cell allocated by this call or privately owned by `self`);
+`c` = closed (an immutable value or a reference to a mutable cell from which only closed cells are
+reachable); `n` = certainly not a closed cell (so storing anything into it cannot break closedness). -/
+structure Cls where
+  m : Bool
+  c : Bool
+  n : Bool
+  deriving Repr, DecidableEq
+
+/-- Bit sets (one bit per variable): `lm`/`lc`/`ln` for locals, `am`/`ac`/`an` for attributes of
+`self`. -/
 structure Abs where
-  ls : Nat
+  lm : Nat
   lc : Nat
-  as : Nat
+  ln : Nat
+  am : Nat
   ac : Nat
+  an : Nat
   deriving Repr, DecidableEq
 
 def Abs.force {β : Type} (A : Abs) (k : Abs → β) : β :=
-  forceN A.ls fun a => forceN A.lc fun b => forceN A.as fun c => forceN A.ac fun d => k ⟨a, b, c, d⟩
+  forceN A.lm fun a => forceN A.lc fun b => forceN A.ln fun c =>
+  forceN A.am fun d => forceN A.ac fun e => forceN A.an fun f => k ⟨a, b, c, d, e, f⟩
 
 def setBitTo (n i : Nat) (b : Bool) : Nat :=
   if b then n ||| 2 ^ i else n ^^^ (n &&& 2 ^ i)
@@ -215,65 +234,88 @@ def maskOf : List Nat → Nat
   | i :: l => 2 ^ i ||| maskOf l
 
 def Abs.join (A B : Abs) : Abs :=
-  ⟨A.ls &&& B.ls, A.lc &&& B.lc, A.as &&& B.as, A.ac &&& B.ac⟩
+  ⟨A.lm &&& B.lm, A.lc &&& B.lc, A.ln &&& B.ln, A.am &&& B.am, A.ac &&& B.ac, A.an &&& B.an⟩
 
-/-- Forget every `closed` fact (kept as `safe`). -/
-def Abs.demote (A : Abs) : Abs := ⟨A.ls ||| A.lc, 0, A.as ||| A.ac, 0⟩
+/-- Forget every `closed` fact: afterwards no cell counts as closed, so everything that was mutable
+or closed is mutable and not closed. -/
+def Abs.demote (A : Abs) : Abs :=
+  ⟨A.lm ||| A.lc, 0, A.lm ||| A.lc ||| A.ln, A.am ||| A.ac, 0, A.am ||| A.ac ||| A.an⟩
 
 /-- Forget everything known about the attributes of `self`. -/
-def Abs.forgetAttrs (A : Abs) : Abs := ⟨A.ls, A.lc, 0, 0⟩
+def Abs.forgetAttrs (A : Abs) : Abs := ⟨A.lm, A.lc, A.ln, 0, 0, 0⟩
 
-/-- `(mutable-without-harm, closed)` of a path. -/
-def clsPath (A : Abs) : Path → Bool × Bool
-  | .loc x => (A.ls.testBit x || A.lc.testBit x, A.lc.testBit x)
-  | .attr a => (A.as.testBit a || A.ac.testBit a, A.ac.testBit a)
-  | .sub p _ => ((clsPath A p).2, (clsPath A p).2)
+def clsPath (A : Abs) : Path → Cls
+  | .loc x => ⟨A.lm.testBit x, A.lc.testBit x, A.ln.testBit x⟩
+  | .attr a => ⟨A.am.testBit a, A.ac.testBit a, A.an.testBit a⟩
+  | .sub p _ => ⟨(clsPath A p).c, (clsPath A p).c, false⟩
 
-def allClosed (A : Abs) (ps : List Path) : Bool := ps.all fun p => (clsPath A p).2
+/-- may the object behind the path be mutated in place without the caller noticing? -/
+def mutOK (A : Abs) (p : Path) : Bool := (clsPath A p).m || (clsPath A p).c
 
-def clsRhs (A : Abs) : Rhs → Bool × Bool
+def allClosed (A : Abs) (ps : List Path) : Bool := ps.all fun p => (clsPath A p).c
+
+def clsRhs (A : Abs) : Rhs → Cls
   | .alias p => clsPath A p
-  | .copy p => (true, (clsPath A p).2)
-  | .deep _ => (true, true)
-  | .fresh caps => (true, allClosed A caps)
+  | .copy p => ⟨true, (clsPath A p).c, !(clsPath A p).c⟩
+  | .deep _ => ⟨true, true, false⟩
+  | .fresh caps => ⟨true, allClosed A caps, !allClosed A caps⟩
+
+def Abs.setLoc (A : Abs) (x : Nat) (k : Cls) : Abs :=
+  { A with lm := setBitTo A.lm x k.m, lc := setBitTo A.lc x k.c, ln := setBitTo A.ln x k.n }
+
+def Abs.setAttr (A : Abs) (a : Nat) (k : Cls) : Abs :=
+  { A with am := setBitTo A.am a k.m, ac := setBitTo A.ac a k.c, an := setBitTo A.an a k.n }
 
 def checkAtom (ps : List Nat) (A : Abs) : Atom → Bool × Abs
-  | .bind x r =>
-    (true, { A with ls := setBitTo A.ls x (clsRhs A r).1, lc := setBitTo A.lc x (clsRhs A r).2 })
-  | .writeAttr a r =>
-    (!ps.contains a,
-     { A with as := setBitTo A.as a (clsRhs A r).1, ac := setBitTo A.ac a (clsRhs A r).2 })
-  | .mutate p stored => ((clsPath A p).1, if allClosed A stored then A else A.demote)
-  | .callFit p => ((clsPath A p).1, A)
+  | .bind x r => (true, A.setLoc x (clsRhs A r))
+  | .writeAttr a r => (!ps.contains a, A.setAttr a (clsRhs A r))
+  | .mutate p stored =>
+    (mutOK A p, if (clsPath A p).n || allClosed A stored then A else A.demote)
+  | .callFit p => (mutOK A p, A)
   | .callInner _ => (true, A.forgetAttrs)
   | .readAttr _ => (true, A)
 
-def check (ps : List Nat) : Prog → Abs → Bool × Abs
-  | .skip, A => (true, A)
-  | .seq e rest, A => A.force fun A =>
-    match checkAtom ps A e with
-    | (ok, A') =>
-      match check ps rest A' with
-      | (ok', A'') => (ok && ok', A'')
-  | .ite t e rest, A => A.force fun A =>
-    match check ps t A, check ps e A with
-    | (ok₁, A₁), (ok₂, A₂) =>
-      match check ps rest (A₁.join A₂) with
-      | (ok₃, A₃) => (ok₁ && ok₂ && ok₃, A₃)
-
-def Abs.init (S : Summary) : Abs := ⟨0, 0, maskOf S.safeAttrs, maskOf S.closedAttrs⟩
+def Abs.init (S : Summary) : Abs :=
+  ⟨0, 0, 0, maskOf S.safeAttrs ||| maskOf S.closedAttrs, maskOf S.closedAttrs, 0⟩
 
 /-- Exit condition: the declared private attributes are private again. -/
 def exitOK (S : Summary) (A : Abs) : Bool :=
   S.closedAttrs.all (fun a => A.ac.testBit a) &&
-  S.safeAttrs.all (fun a => A.as.testBit a || A.ac.testBit a)
+  S.safeAttrs.all (fun a => A.am.testBit a || A.ac.testBit a)
+
+/-- join of the abstract states of two branches; `none` = the branch always leaves by an exception -/
+def joinO : Option Abs → Option Abs → Option Abs
+  | none, r => r
+  | r, none => r
+  | some a, some b => some (a.join b)
+
+/-- Abstract interpretation.  Result: all checked atoms were fine (and every exceptional exit left the
+declared private attributes private), and the abstract state at the normal exit (`none` if the
+program always leaves by an exception). -/
+def check (S : Summary) : Prog → Abs → Bool × Option Abs
+  | .skip, A => (true, some A)
+  | .abort, A => (exitOK S A, none)
+  | .seq e rest, A => A.force fun A =>
+    match checkAtom S.params A e with
+    | (ok, A') =>
+      match check S rest A' with
+      | (ok', r) => (ok && ok', r)
+  | .ite t e rest, A => A.force fun A =>
+    match check S t A, check S e A with
+    | (ok₁, r₁), (ok₂, r₂) =>
+      match joinO r₁ r₂ with
+      | none => (ok₁ && ok₂, none)
+      | some J =>
+        match check S rest J with
+        | (ok₃, r₃) => (ok₁ && ok₂ && ok₃, r₃)
 
 /-- The decidable frame predicate of a summary: no write to a constructor parameter, every in-place
 mutation and every `fit`-like call goes through a value that is certainly private to this call or
-to `self`, and the declared private attributes are private again on exit. -/
+to `self`, and the declared private attributes are private again on every exit. -/
 def FrameOK (S : Summary) : Bool :=
-  match check S.params S.body (Abs.init S) with
-  | (ok, A) => ok && exitOK S A
+  match check S S.body (Abs.init S) with
+  | (ok, none) => ok
+  | (ok, some A) => ok && exitOK S A
 
 /-! ## Read-before-write analysis for `fit` (history-freeness, C13) -/
 
@@ -304,18 +346,27 @@ def histAtom (ps : List Nat) (W : Nat) (e : Atom) : Bool × Nat :=
    | .writeAttr a _ => W ||| 2 ^ a
    | _ => W)
 
-def histCheck (ps : List Nat) : Prog → Nat → Bool × Nat
-  | .skip, W => (true, W)
+def joinW : Option Nat → Option Nat → Option Nat
+  | none, r => r
+  | r, none => r
+  | some a, some b => some (a &&& b)
+
+def histCheck (ps : List Nat) : Prog → Nat → Bool × Option Nat
+  | .skip, W => (true, some W)
+  | .abort, _ => (true, none)
   | .seq e rest, W => forceN W fun W =>
     match histAtom ps W e with
     | (ok, W') =>
       match histCheck ps rest W' with
-      | (ok', W'') => (ok && ok', W'')
+      | (ok', r) => (ok && ok', r)
   | .ite t e rest, W => forceN W fun W =>
     match histCheck ps t W, histCheck ps e W with
-    | (ok₁, W₁), (ok₂, W₂) =>
-      match histCheck ps rest (W₁ &&& W₂) with
-      | (ok₃, W₃) => (ok₁ && ok₂ && ok₃, W₃)
+    | (ok₁, r₁), (ok₂, r₂) =>
+      match joinW r₁ r₂ with
+      | none => (ok₁ && ok₂, none)
+      | some J =>
+        match histCheck ps rest J with
+        | (ok₃, r₃) => (ok₁ && ok₂ && ok₃, r₃)
 
 /-- A `fit` summary is history free when it never looks at a non-parameter attribute of `self`
 that it has not itself (certainly) written before in the same call. -/
@@ -332,20 +383,22 @@ structure HSt where
   obj : Nat → Val
   log : List Val
   clk : Nat
+  dead : Bool := false
 
 def hAtom (F : HOra) (s : HSt) (e : Atom) : HSt :=
   let log' := (atomReads e).map s.obj ++ s.log
   match e with
   | .writeAttr a _ =>
-    { obj := fun k => if k = a then F.val s.clk log' else s.obj k, log := log', clk := s.clk + 1 }
+    { s with obj := fun k => if k = a then F.val s.clk log' else s.obj k, log := log', clk := s.clk + 1 }
   | _ => { s with log := log', clk := s.clk + 1 }
 
 def hRun (F : HOra) : Prog → HSt → HSt
   | .skip, s => s
+  | .abort, s => { s with dead := true }
   | .seq e rest, s => hRun F rest (hAtom F s e)
   | .ite t e rest, s =>
-    hRun F rest
-      (if F.cond s.clk s.log then hRun F t { s with clk := s.clk + 1 }
-       else hRun F e { s with clk := s.clk + 1 })
+    let s' := if F.cond s.clk s.log then hRun F t { s with clk := s.clk + 1 }
+              else hRun F e { s with clk := s.clk + 1 }
+    if s'.dead then s' else hRun F rest s'
 
 end Ska.Effects
